@@ -230,8 +230,10 @@ func (s *Scope) Set(sym Symbol, value Object) {
 		value = vs.First()
 	}
 	if pkg, name, private := UnpackName(string(sym)); pkg != nil {
-		if vv := pkg.GetVarVal(name); vv != nil && (vv.Export || private) {
-			pkg.Set(name, value)
+		// A :: reference reaches any variable of the package and makes a
+		// new one if there is none yet, a : reference an exported one only.
+		if vv := pkg.GetVarVal(name); private || (vv != nil && vv.Export) {
+			pkg.Set(name, value, private)
 		}
 		return
 	}
